@@ -195,9 +195,13 @@ func modelTx(op *Op, before dbState, rowids bool) *txModel {
 		if len(filters) > 0 {
 			pf = parseFilters(filters, cdef)
 			if pf == nil {
-				mark("filter:unparsed")
+				if edgeQuoteIn(filters) {
+					mark("filter:edge-quote")
+				} else {
+					mark("filter:unparsed")
+				}
 			} else {
-				filterKind(pf, true, m.add)
+				filterKind(pf, true, filters, m.add)
 				if !pf.strict {
 					m.documented = false
 				}
